@@ -51,6 +51,9 @@ pub fn programs16() -> Vec<Prog> {
     k.ast.items.insert(0, Item::LBreak("first".into()));
     v.push(Prog::new("every-instruction-kind", k.ast, true));
     v.push(writes_halt_ahead());
+    // recursion in which control reaches a stepped-over call's return address while outer calls
+    // are still open
+    v.push(shared_return_address_labelled(Some("first"), "end"));
     // words the debugger treats specially (returns, calls, HALT) lying at the out-of-bounds
     // address the program runs or jumps into
     for (name, words) in [("runs-into-RET-at-xFE00", [0xC1C0u16, 0x4800]), ("runs-into-JSR-at-xFE00", [0x4801, 0xC1C0]), ("runs-into-HALT-at-xFE00", [0xF025, 0xD800])] {
@@ -75,8 +78,8 @@ pub fn programs16() -> Vec<Prog> {
     v
 }
 
-pub fn alphabet(_prog: &Prog) -> Vec<Action> {
-    vec![
+pub fn alphabet(prog: &Prog) -> Vec<Action> {
+    let mut v = vec![
         Action::of(Cmd::Step),
         Action::of(Cmd::StepInto(1)),
         Action::of(Cmd::StepInto(60000)),
@@ -96,7 +99,9 @@ pub fn alphabet(_prog: &Prog) -> Vec<Action> {
         // the word under the PC replaced by an ordinary instruction (when parked on HALT: the
         // HALT is gone and resuming must execute the new word)
         Action::of(Cmd::MoveMem(Loc::PcOff(0), 0x1021)),
-    ]
+    ];
+    let _ = prog;
+    v
 }
 
 /// The bound of the property: work <= c * (instructions + commands) + c', and no long idle run.
@@ -119,6 +124,21 @@ pub fn progress(obs: &Obs, what: &str) -> Option<Mismatch> {
         return Some(Mismatch { sig: format!("progress/idle-run/{what}"), what: format!("{} consecutive loop iterations without executing an instruction or reading a command", c.max_idle_run) });
     }
     None
+}
+
+/// Does the reference debugger finish the script and the detached run after it within half the
+/// step budget?
+fn reference_terminates(prog: &Prog, actions: &[&Action]) -> bool {
+    use crate::refmodel::dbg::Pause;
+    let (mut d, pauses) = run_ref(prog, actions);
+    if pauses.iter().any(|p| matches!(p, Pause::Fuel | Pause::Unspecified)) {
+        return false;
+    }
+    if matches!(pauses.last(), Some(Pause::Exit(_))) {
+        return true;
+    }
+    let mut budget = SESSION_FUEL / 2;
+    !matches!(d.run_detached(&mut budget), Pause::Fuel | Pause::Unspecified)
 }
 
 fn pc_class(prog: &Prog, pc: u16) -> &'static str {
@@ -167,6 +187,14 @@ pub fn run(ctx: &Ctx) -> i32 {
             let mut r = judge();
             if r.is_err() {
                 r = crate::isolate::confirm_fresh(judge);
+            }
+            // "terminates whenever the program itself does": a session that used up its budget
+            // while executing instructions is only a violation if the reference session ends
+            if let Err(m) = &r {
+                if m.sig.starts_with("progress/livelock") && !reference_terminates(prog, &actions) {
+                    acc.skip("the program itself does not terminate within the step budget after these commands");
+                    continue;
+                }
             }
             match r {
                 Ok(paused) => {
